@@ -17,6 +17,7 @@ func ruleC13(w *World, r *Report) {
 		"R13.2 content: NewSessionReportRequest with a sequence number taken from getSeqNum in this call, report type DLDR only, header SEID = the stored session's remoteSEID, Downlink Data Report = NewPDRID(pdrID) where pdrID/farID come from the first PDR with srcIface == core; remoteSEID is kept current by the modification handler (CP F-SEID stored before PutSession); " +
 		"R13.3 rate limiter decision table: unknown F-SEID → store time.Now(), pass; known and Since(last) ≥ interval → store time.Now(), pass; otherwise no store, suppress; Notify forwards exactly the F-SEID it was given and only on a pass; one notifier per listener goroutine; " +
 		"R13.4 dispatch: Serve hands the received F-SEID unchanged to handleDigestReport; R13.5 crash/exit obligations of the two listeners (short digests, short reads)."
+	r.Explanation += " R13.6 Notify/shouldNotify are plain calls on the goroutine that created the notifier (the limiter's Load-then-Store is not atomic)."
 	r.NotDecided = "'at most one per interval' as a statement about wall-clock time (time.Now/time.Since are trusted); whether the datapath produces a report (BESS/UP4 side)"
 
 	h := w.Fn(P, "pfcpiface.(*PFCPConn).handleDigestReport")
@@ -309,6 +310,7 @@ func ruleC13(w *World, r *Report) {
 	ruleC13Limiter(w, r)
 	ruleC13Dispatch(w, r, h)
 	ruleC13Listeners(w, r)
+	ruleC13SingleCaller(w, r)
 }
 
 func blockHas(b *ssa.BasicBlock, ins ssa.Instruction) bool {
@@ -728,4 +730,52 @@ func ruleC13Listeners(w *World, r *Report) {
 		})
 		r.check(strings.Contains(s, "ueAddrToFSEID[") && g, "R13.5", w.FuncName(ul), "UP4 digest: UE address → F-SEID of the session that owns it, only when known", w.Pos(c.Pos()), s, "the UP4 listener notifies "+s+ifelse(g, "", " without the presence test"))
 	})
+}
+
+// ruleC13SingleCaller (R13.6): shouldNotify is a Load followed by a Store on the limiter's map — "at most
+// one notification per interval" holds only because a notifier is driven by one goroutine (the listener
+// that owns it). Notify is therefore never started as a goroutine of its own, and each notifier is
+// created in the function that calls Notify on it.
+func ruleC13SingleCaller(w *World, r *Report) {
+	const P = "C13"
+	notify := w.Fn(P, "pfcpiface.(*downlinkDataNotifier).Notify")
+	should := w.Fn(P, "pfcpiface.(*downlinkDataNotifier).shouldNotify")
+	newN := w.Fn(P, "pfcpiface.NewDownlinkDataNotifier")
+	n := 0
+	for _, f := range w.Funcs {
+		if strings.HasPrefix(w.FuncName(f), "test/") {
+			continue
+		}
+		allInstrs(f, func(i ssa.Instruction) {
+			ci, ok := i.(ssa.CallInstruction)
+			if !ok {
+				return
+			}
+			g := staticCallee(ci)
+			if g != notify && g != should {
+				return
+			}
+			if g == should && f == notify {
+				return
+			}
+			n++
+			_, isGo := i.(*ssa.Go)
+			r.check(!isGo, "R13.6", w.FuncName(f), g.Name()+" runs on the listener's own goroutine", w.Pos(i.Pos()), "plain call", g.Name()+" is started as a goroutine: two reports for one session can both pass the limiter's Load before either Stores, and both are forwarded within one interval")
+			// the notifier is this function's own
+			local := false
+			if len(ci.Common().Args) > 0 {
+				if c, isCall := ci.Common().Args[0].(*ssa.Call); isCall && staticCallee(c) == newN {
+					local = true
+				}
+				if fv, isFv := ci.Common().Args[0].(*ssa.FreeVar); isFv {
+					_ = fv
+					local = false
+				}
+			}
+			if g == notify {
+				r.check(local, "R13.6", w.FuncName(f), "the notifier is created by the goroutine that uses it", w.Pos(i.Pos()), "NewDownlinkDataNotifier in the same function", "Notify is called on a notifier that was not created in this function (captured or shared): the limiter's map is then reachable from more than one goroutine")
+			}
+		})
+	}
+	r.floor("R13.6 callers of Notify / shouldNotify", n, 2)
 }
